@@ -30,7 +30,7 @@ from mc.ref import config_table as T
 
 ID = "C05"
 LEVEL = "exploration"
-BUDGET = {"quick": 300, "thorough": 900}
+BUDGET = {"quick": 300, "thorough": 3600}
 CHUNK = 2
 RULE = (
     "one evaluation = one user pipeline (or input+pipeline) through one checking entry point, decided by the "
